@@ -472,6 +472,20 @@ def c10_hermtoep(ctx, case):
     else:
         X = HERMTOEP(float(r[0].real), r[1:], z)
     _resid_ok(ctx, T, X, z.astype(complex), c, "HERMTOEP")
+    if case["form"] != "list" and p >= 1:
+        # the caller re-uses its lag array for a second system: same array object, new lags written in place
+        # (a lag window applied to the same autocorrelation keeps the matrix positive definite)
+        lags = np.array(r[1:], copy=True)
+        X1 = HERMTOEP(float(r[0].real), lags, z)
+        _resid_ok(ctx, T, X1, z.astype(complex), c, "HERMTOEP (first call on the caller's lag array)")
+        taper = 1.0 - np.arange(1, p + 1) / float(p + 1)            # Bartlett lag window: PD preserved
+        lags *= taper
+        r2 = np.concatenate(([r[0]], lags))
+        T2 = _toep(r2)
+        c2 = float(np.linalg.cond(T2))
+        if c2 <= CMAX:
+            X2 = HERMTOEP(float(r[0].real), lags, z)
+            _resid_ok(ctx, T2, X2, z.astype(complex), c2, "HERMTOEP (second call, same lag array modified in place)")
 
 
 # ----------------------------------------------------------------------------
